@@ -1,5 +1,6 @@
 //! seed -> Plan, one pure function per profile.
 
+use crate::codec::{Msg, BLOCK};
 use crate::plan::*;
 use world::rng::Rng64;
 
@@ -26,6 +27,7 @@ pub fn base_peer(k: usize, pieces: usize) -> PeerPlan {
         keepalive: Some(60_000),
         script: vec![],
         essential: true,
+        strict_choke: false,
     }
 }
 
@@ -60,21 +62,1359 @@ pub fn base_plan(profile: &str, seed: u64, g: Geometry) -> Plan {
     }
 }
 
+pub fn good_tracker(p: &mut Plan, lat: u64) {
+    let names: Vec<String> = p.peers.iter().filter(|x| x.listed).map(|x| x.name.clone()).collect();
+    p.tracker.steps.push((lat, TrackerStep::Good { peers: names, malformed: 0, wrong_id_for: vec![] }));
+}
+
+pub fn step(when: When, act: Act) -> Step {
+    Step { when, act }
+}
+
+// ---------------------------------------------------------------------------------------------
+// geometry
+
+pub fn gen_piece_len(r: &mut Rng64, small: bool) -> u64 {
+    if small {
+        match r.below(10) {
+            0 => *r.pick(&[1u64, 2, 3, 7, 16, 64, 100, 512]),
+            _ => r.range(1, 600),
+        }
+    } else {
+        match r.below(10) {
+            0..=5 => *r.pick(&[16383u64, 16384, 16385, 32768, 40000, 49159, 20000, 32769, 16384 * 3]),
+            6..=7 => r.range(1000, 50_000),
+            _ => r.range(1, 2000),
+        }
+    }
+}
+
+pub fn gen_files(r: &mut Rng64, piece_len: u64, total: u64) -> (bool, Vec<FileSpec>) {
+    let k = match r.below(10) {
+        0..=2 => 1,
+        3..=5 => r.range(2, 3),
+        _ => r.range(2, 8),
+    } as usize;
+    if k == 1 {
+        let single = r.chance(3, 4);
+        return (single, vec![FileSpec { path: "only.bin".into(), len: total }]);
+    }
+    // k-1 cut positions in [0,total]
+    let mut cuts: Vec<u64> = Vec::new();
+    let mut prev = 0u64;
+    for _ in 0..k - 1 {
+        let c = match r.below(10) {
+            // on a piece boundary
+            0..=2 => (r.range(0, total / piece_len)) * piece_len,
+            // same position as the previous cut: zero-length file
+            3 => prev,
+            // close to the previous cut (several files inside one piece)
+            4..=5 => (prev + r.range(0, piece_len.min(40))).min(total),
+            _ => r.range(0, total),
+        }
+        .min(total);
+        cuts.push(c);
+        prev = c;
+    }
+    cuts.sort();
+    let mut files = Vec::new();
+    let mut last = 0u64;
+    let dirs = ["", "", "d1/", "d1/d2/", "x y/"];
+    for (i, c) in cuts.iter().chain(std::iter::once(&total)).enumerate() {
+        let d = r.pick(&dirs);
+        files.push(FileSpec { path: format!("{}f{}.bin", d, i), len: c - last });
+        last = *c;
+    }
+    (false, files)
+}
+
+pub fn gen_geometry(r: &mut Rng64, max_pieces: usize, small: bool) -> Geometry {
+    let piece_len = gen_piece_len(r, small);
+    let mut n = if r.chance(1, 2) { r.range(1, 5.min(max_pieces as u64)) } else { r.range(1, max_pieces as u64) };
+    let cap = 300_000u64;
+    while n > 1 && n * piece_len > cap {
+        n -= 1;
+    }
+    let last = if r.chance(3, 10) { piece_len } else { r.range(1, piece_len) };
+    let total = (n - 1) * piece_len + last;
+    let (single, files) = gen_files(r, piece_len, total);
+    Geometry {
+        piece_len,
+        name: if single { "single.out".into() } else { "bundle".into() },
+        single,
+        files,
+        announce: "http://tracker.sim:6969/announce".into(),
+        pad: String::new(),
+    }
+}
+
+pub fn gen_net(r: &mut Rng64, calm: bool) -> NetPlan {
+    if calm {
+        return NetPlan::default();
+    }
+    let lat_min = *r.pick(&[1u64, 1, 1, 5, 20, 100]);
+    let lat_max = lat_min + *r.pick(&[0u64, 0, 1, 10, 50, 200]);
+    let seg = match r.below(8) {
+        0..=2 => Seg::Whole,
+        3 => Seg::Cuts(3),
+        4 => Seg::Boundary,
+        5 => Seg::Bytewise,
+        6 => Seg::Glue,
+        _ => Seg::Cuts(1),
+    };
+    let pm = |r: &mut Rng64| *r.pick(&[0u32, 0, 0, 10, 100, 300]);
+    NetPlan { lat_min, lat_max, seg, short_read_pm: pm(r), short_write_pm: pm(r), yield_pm: *r.pick(&[0u32, 0, 10, 100]) }
+}
+
+// ---------------------------------------------------------------------------------------------
+// profiles: download-centric
+
+/// One honest seeder, no faults: all variation goes into piece length x file list.
+pub fn geometry(seed: u64) -> Plan {
+    let mut r = Rng64::sub(seed, "geometry");
+    let g = gen_geometry(&mut r, 12, true);
+    let n = g.pieces();
+    let mut p = base_plan("geometry", seed, g);
+    p.peers.push(base_peer(0, n));
+    good_tracker(&mut p, 1);
+    p.deadline_ms = 30_000;
+    p.linger_ms = 500;
+    p
+}
+
+fn hostile_component(r: &mut Rng64) -> String {
+    match r.below(10) {
+        0..=2 => "..".into(),
+        3 => ".".into(),
+        4 => "".into(),
+        5 => "a b".into(),
+        _ => format!("n{}", r.below(4)),
+    }
+}
+
+fn hostile_path(r: &mut Rng64) -> String {
+    let k = r.range(1, 4);
+    let mut parts: Vec<String> = (0..k).map(|_| hostile_component(r)).collect();
+    if parts.last().map(|s| s.is_empty() || s == "." || s == "..").unwrap_or(true) {
+        parts.push(format!("f{}", r.below(3)));
+    }
+    let mut s = parts.join("/");
+    if r.chance(1, 5) {
+        s = format!("/{}", s);
+    }
+    if r.chance(1, 8) {
+        s = format!("/abs{}/{}", r.below(3), s);
+    }
+    s
+}
+
+/// Names and paths with "..", ".", empty and absolute components; cheap world as in `geometry`.
+pub fn hostile_names(seed: u64) -> Plan {
+    let mut r = Rng64::sub(seed, "hostile");
+    let mut g = gen_geometry(&mut r, 6, true);
+    if g.single {
+        g.name = hostile_path(&mut r);
+    } else {
+        if r.chance(1, 2) {
+            g.name = hostile_path(&mut r);
+        }
+        let mut used = std::collections::BTreeSet::new();
+        for f in g.files.iter_mut() {
+            if r.chance(2, 3) {
+                let mut cand = hostile_path(&mut r);
+                while used.contains(&cand) {
+                    cand.push('x');
+                }
+                f.path = cand;
+            }
+            used.insert(f.path.clone());
+        }
+    }
+    let n = g.pieces();
+    let mut p = base_plan("hostile-names", seed, g);
+    p.peers.push(base_peer(0, n));
+    good_tracker(&mut p, 1);
+    p.deadline_ms = 3_000;
+    p.linger_ms = 500;
+    p
+}
+
+fn alnum_id(r: &mut Rng64) -> String {
+    const A: &[u8] = b"ABCDEFGHIJKLMNOPQRSTUVWXYZabcdefghijklmnopqrstuvwxyz0123456789";
+    (0..20).map(|_| A[r.usize_below(A.len())] as char).collect()
+}
+
+/// Announce URLs with/without query, ports, path depth; ids; lengths; info-hash bytes steered
+/// through a pad key inside `info`.
+pub fn announce_url(seed: u64) -> Plan {
+    let mut r = Rng64::sub(seed, "announce-url");
+    let piece_len = *r.pick(&[64u64, 512, 16384]);
+    let total = match r.below(4) {
+        0 => r.range(1, 100),
+        1 => r.range(100, 5000),
+        _ => r.range(1, 40_000),
+    };
+    let mut g = simple_geometry(piece_len, total);
+    let host = r.pick(&["tracker.sim", "10.1.2.3", "t.example.org"]).to_string();
+    let port = match r.below(3) {
+        0 => String::new(),
+        _ => format!(":{}", r.range(1, 65535)),
+    };
+    let path = r.pick(&["/announce", "/a/b/announce", "/", "/announce.php", "/x%20y/ann"]).to_string();
+    let query = match r.below(6) {
+        0..=2 => String::new(),
+        3 => "?passkey=abc123".to_string(),
+        4 => "?k=v&uid=77&flag".to_string(),
+        _ => "?".to_string(),
+    };
+    g.announce = format!("http://{}{}{}{}", host, port, path, query);
+    // grind the pad until the info-hash contains the byte aimed at
+    let target = (seed % 256) as u8;
+    let mut best = String::new();
+    for t in 0..40u32 {
+        let pad = format!("{}-{}", seed, t);
+        g.pad = pad.clone();
+        let tor = crate::torrent::build(&g, 1);
+        if tor.info_hash.contains(&target) {
+            best = pad;
+            break;
+        }
+        best = pad;
+    }
+    g.pad = best;
+    let n = g.pieces();
+    let mut p = base_plan("announce-url", seed, g);
+    p.own_id = alnum_id(&mut r);
+    p.peers.push(base_peer(0, n));
+    good_tracker(&mut p, 1);
+    p.deadline_ms = 5_000;
+    p.stop_on_done = false;
+    p
+}
+
+fn split_has(r: &mut Rng64, n: usize, k: usize) -> Vec<Vec<bool>> {
+    // every piece goes to at least one of k peers; extra copies at random
+    let mut v = vec![vec![false; n]; k];
+    for i in 0..n {
+        let owner = r.usize_below(k);
+        v[owner][i] = true;
+        for x in v.iter_mut() {
+            if r.chance(1, 3) {
+                x[i] = true;
+            }
+        }
+    }
+    v
+}
+
+fn honest_flaps(r: &mut Rng64, peer: &mut PeerPlan, end_unchoked: bool) {
+    // finitely many choke/unchoke pairs, all timed from the same trigger so their order is fixed
+    let k = r.range(1, 3);
+    let c = r.range(1, 6) as u32;
+    let mut t = r.range(0, 400);
+    peer.strict_choke = true;
+    for j in 0..k {
+        let dur = r.range(1, 3000);
+        peer.script.push(step(When::AfterRx { kind: "Request".into(), count: c, plus: t }, Act::Choke));
+        if end_unchoked || j + 1 < k || r.chance(1, 2) {
+            peer.script.push(step(When::AfterRx { kind: "Request".into(), count: c, plus: t + dur }, Act::Unchoke));
+        }
+        t += dur + r.range(10, 2000);
+    }
+}
+
+/// All peers honest; every piece is held by an essential peer (listed, accepting, unchoking).
+pub fn honest_swarm(seed: u64) -> Plan {
+    let mut r = Rng64::sub(seed, "honest-swarm");
+    let small = r.chance(2, 3);
+    let g = gen_geometry(&mut r, 40, small);
+    let n = g.pieces();
+    let mut p = base_plan("honest-swarm", seed, g);
+    let calm = r.chance(1, 4);
+    let n_ess = r.range(1, 4) as usize;
+    let hs = if r.chance(1, 3) { vec![vec![true; n]; n_ess] } else { split_has(&mut r, n, n_ess) };
+    let mut k = 0usize;
+    for h in hs {
+        let mut peer = base_peer(k, n);
+        peer.has = h;
+        peer.max_accepts = 50;
+        peer.net = gen_net(&mut r, calm);
+        peer.unchoke = Unchoke::OnInterested(r.range(1, 20_000));
+        peer.answer.delay_min = 0;
+        peer.answer.delay_max = *r.pick(&[0u64, 0, 5, 50, 500]);
+        peer.answer.fifo = r.chance(1, 2);
+        peer.keepalive = Some(r.range(20_000, 110_000));
+        if r.chance(1, 3) {
+            peer.bitfield = BitfieldMode::AsHaves;
+        }
+        // Have-driven growth: start without some pieces, gain them early
+        if r.chance(1, 4) {
+            for i in 0..n {
+                if peer.has[i] && r.chance(1, 3) {
+                    peer.has[i] = false;
+                    peer.script.push(step(When::At(r.range(10, 60_000)), Act::Gain(i as u32)));
+                }
+            }
+        }
+        if r.chance(1, 4) {
+            honest_flaps(&mut r, &mut peer, true);
+        }
+        peer.essential = true;
+        p.peers.push(peer);
+        k += 1;
+    }
+    // non-essential honest peers
+    let n_other = if calm { r.range(0, 2) } else { r.range(0, 8) } as usize;
+    for _ in 0..n_other {
+        let mut peer = base_peer(k, n);
+        peer.essential = false;
+        peer.max_accepts = r.range(1, 3) as u32;
+        peer.net = gen_net(&mut r, calm);
+        peer.has = match r.below(4) {
+            0 => vec![true; n],
+            1 => vec![false; n],
+            _ => (0..n).map(|_| r.chance(1, 2)).collect(),
+        };
+        if peer.has.iter().all(|h| !*h) && r.chance(1, 2) {
+            peer.bitfield = BitfieldMode::Omit;
+        }
+        peer.keepalive = Some(r.range(20_000, 110_000));
+        peer.answer.delay_max = *r.pick(&[0u64, 5, 100, 1000]);
+        peer.answer.fifo = r.chance(1, 2);
+        match r.below(8) {
+            0 => peer.unchoke = Unchoke::Never,
+            1 => peer.accept = Accept::Refuse,
+            2 => peer.accept = Accept::Timeout(r.range(1000, 130_000)),
+            3..=4 => honest_flaps(&mut r, &mut peer, false),
+            _ => {}
+        }
+        // disconnects at arbitrary moments
+        match r.below(6) {
+            0 => peer.script.push(step(When::At(r.range(0, 30_000)), if r.chance(1, 2) { Act::CloseFin } else { Act::CloseRst })),
+            1 => peer.script.push(step(
+                When::AfterTxBlocks { count: r.range(1, 8) as u32, plus: r.range(0, 50) },
+                if r.chance(1, 2) { Act::CloseFin } else { Act::CloseRst },
+            )),
+            2 => {
+                // truncated block frame then close
+                let cutlen = r.range(1, 30) as usize;
+                let m = Msg::Piece { index: 0, begin: 0, block: vec![0u8; 64] }.encode();
+                let at = r.range(10, 20_000);
+                peer.script.push(step(When::At(at), Act::Raw(m[..cutlen.min(m.len() - 1)].to_vec())));
+                peer.script.push(step(When::At(at + 1), if r.chance(1, 2) { Act::CloseFin } else { Act::CloseRst }));
+            }
+            _ => {}
+        }
+        // some dial in as well (honest leechers: interested, request what the client announced)
+        if r.chance(1, 4) {
+            peer.dial_in = vec![r.range(0, 60_000)];
+            peer.listed = r.chance(1, 2);
+            peer.script.push(step(When::At(r.range(1, 500)), Act::Send(Msg::Interested)));
+            peer.script.push(step(When::AfterRx { kind: "Unchoke".into(), count: 1, plus: r.range(1, 200) }, Act::RequestOwned(r.range(1, 4) as u32)));
+        }
+        p.peers.push(peer);
+        k += 1;
+    }
+    // tracker lists the peers in a seeded order
+    let mut names: Vec<String> = p.peers.iter().filter(|x| x.listed).map(|x| x.name.clone()).collect();
+    r.shuffle(&mut names);
+    p.tracker.steps.push((r.range(1, 300), TrackerStep::Good { peers: names, malformed: 0, wrong_id_for: vec![] }));
+    p.deadline_ms = 3_600_000;
+    p.linger_ms = 1_000;
+    p.fs_yield_pm = *r.pick(&[0u32, 0, 100]);
+    let _ = BLOCK;
+    p
+}
+
+// ---------------------------------------------------------------------------------------------
+// rig A streams
+
+fn stream_element(r: &mut Rng64, big_ok: bool) -> Vec<u8> {
+    let ih: [u8; 20] = {
+        let mut x = [0u8; 20];
+        r.fill(&mut x);
+        x
+    };
+    let m = match r.below(16) {
+        0 => Msg::KeepAlive,
+        1 => Msg::Choke,
+        2 => Msg::Unchoke,
+        3 => Msg::Interested,
+        4 => Msg::NotInterested,
+        5 => Msg::Have(r.next_u32()),
+        6 => {
+            let l = *r.pick(&[0usize, 1, 2, 5, 40, 300]);
+            Msg::Bitfield(r.bytes(l))
+        }
+        7 => Msg::Request { index: r.next_u32(), begin: r.next_u32(), len: r.next_u32() },
+        8 => Msg::Cancel { index: r.next_u32(), begin: r.next_u32(), len: r.next_u32() },
+        9 | 10 => {
+            let l = if big_ok && r.chance(1, 12) { *r.pick(&[16384usize, 65527, 65526]) } else { *r.pick(&[0usize, 1, 2, 100, 1000]) };
+            Msg::Piece { index: r.next_u32(), begin: r.next_u32(), block: r.bytes(l) }
+        }
+        11 => Msg::handshake(&ih, &ih),
+        _ => {
+            // unknown id, never 84 (that is the handshake marker)
+            let mut id = *r.pick(&[9u8, 10, 13, 14, 15, 16, 17, 20, 21, 23, 100, 200, 255]);
+            if id == 84 {
+                id = 85;
+            }
+            let l = if big_ok && r.chance(1, 12) { *r.pick(&[16384usize, 65535]) } else { *r.pick(&[0usize, 1, 5, 50, 300, 300, 2000]) };
+            Msg::Unknown { id, payload: r.bytes(l) }
+        }
+    };
+    m.encode()
+}
+
+fn fatal_element(r: &mut Rng64) -> Vec<u8> {
+    let mut v = Vec::new();
+    match r.below(9) {
+        0 => {
+            // oversized frame with a known id
+            v.extend_from_slice(&(65537u32 + r.below(100_000) as u32).to_be_bytes());
+            v.push(*r.pick(&[5u8, 7]));
+        }
+        1 => {
+            // oversized frame with an unknown id
+            v.extend_from_slice(&(*r.pick(&[65537u32, 0x7FFF_FFFF, 0xFFFF_FFFF, 1 << 20])).to_be_bytes());
+            v.push(*r.pick(&[9u8, 20, 255]));
+        }
+        2 => {
+            // choke-family with a payload
+            v.extend_from_slice(&(*r.pick(&[2u32, 3, 100])).to_be_bytes());
+            v.push(r.below(4) as u8);
+        }
+        3 => {
+            v.extend_from_slice(&(*r.pick(&[1u32, 4, 6, 9])).to_be_bytes());
+            v.push(4);
+        }
+        4 => {
+            v.extend_from_slice(&(*r.pick(&[1u32, 12, 14, 17])).to_be_bytes());
+            v.push(*r.pick(&[6u8, 8]));
+        }
+        5 => {
+            // piece shorter than its header
+            v.extend_from_slice(&(*r.pick(&[1u32, 5, 8])).to_be_bytes());
+            v.push(7);
+        }
+        6 => {
+            // looks like a handshake (5th byte 'T') but the first byte is not 19
+            v.extend_from_slice(&[18, b'B', b'i', b't', b'T']);
+        }
+        7 => {
+            // handshake with a wrong protocol string
+            v.push(19);
+            v.extend_from_slice(b"BitTorrent protocoX");
+            v.extend_from_slice(&[0u8; 48]);
+            return v;
+        }
+        _ => {
+            v.push(19);
+            v.extend_from_slice(b"BitTorrent_protocol");
+            v.extend_from_slice(&[0u8; 48]);
+            return v;
+        }
+    }
+    // some payload bytes so that fixed-length frames are "complete" under their stated length
+    let extra = r.range(0, 20) as usize;
+    v.extend(r.bytes(extra));
+    v
+}
+
+/// (elements, index of the fatal element if any)
+fn gen_stream(r: &mut Rng64, big_ok: bool) -> (Vec<Vec<u8>>, Option<usize>) {
+    let n = r.range(1, 10) as usize;
+    let mut els: Vec<Vec<u8>> = (0..n).map(|_| stream_element(r, big_ok)).collect();
+    let mut fatal = None;
+    if r.chance(35, 100) {
+        let at = r.usize_below(els.len() + 1);
+        els.truncate(at);
+        els.push(fatal_element(r));
+        fatal = Some(at);
+    }
+    (els, fatal)
+}
+
+fn cut_stream(r: &mut Rng64, els: &[Vec<u8>], variant: u64) -> Vec<Vec<u8>> {
+    let total: Vec<u8> = els.concat();
+    let n = total.len();
+    let mut points: Vec<usize> = Vec::new();
+    match variant {
+        0 => {
+            // element boundaries (or a single chunk)
+            if r.chance(1, 2) {
+                let mut p = 0;
+                for e in els {
+                    p += e.len();
+                    points.push(p);
+                }
+            }
+        }
+        1 => {
+            for _ in 0..r.range(1, 8) {
+                points.push(r.range(1, n.max(2) as u64 - 1) as usize);
+            }
+        }
+        2 => {
+            let mut p = 0usize;
+            for e in els {
+                for d in [1usize, 3, 4, 5, 6] {
+                    if r.chance(1, 2) {
+                        points.push(p + d);
+                    }
+                }
+                p += e.len();
+                for d in [-1i64, 0, 1] {
+                    if r.chance(1, 2) {
+                        points.push((p as i64 + d).max(0) as usize);
+                    }
+                }
+            }
+        }
+        _ => {
+            if n <= 600 {
+                points = (1..n).collect();
+            } else {
+                for _ in 0..20 {
+                    points.push(r.range(1, n as u64 - 1) as usize);
+                }
+            }
+        }
+    }
+    points.retain(|p| *p > 0 && *p < n);
+    points.sort();
+    points.dedup();
+    let mut out = Vec::new();
+    let mut prev = 0;
+    for p in points {
+        out.push(total[prev..p].to_vec());
+        prev = p;
+    }
+    out.push(total[prev..].to_vec());
+    out.retain(|c| !c.is_empty());
+    out
+}
+
+/// Rig A: `seed / 4` selects the stream, `seed % 4` the segmentation.
+pub fn riga_stream(seed: u64) -> Plan {
+    let variant = seed % 4;
+    let mut r = Rng64::sub(seed / 4, "riga-stream");
+    let (mut els, fatal) = gen_stream(&mut r, true);
+    let truncated = fatal.is_none() && r.chance(1, 4);
+    if truncated {
+        let total: Vec<u8> = els.concat();
+        if total.len() > 1 {
+            let cut = r.range(1, total.len() as u64 - 1) as usize;
+            els = vec![total[..cut].to_vec()];
+        }
+    }
+    let ending = r.below(3);
+    let mut rs = Rng64::sub(seed, "riga-seg");
+    let mut chunks = cut_stream(&mut rs, &els, variant);
+    if fatal.is_some() {
+        // >= 192 KiB of filler after the malformed frame, in 16 KiB reads
+        let filler_kind = r.below(3);
+        for _ in 0..12 {
+            chunks.push(match filler_kind {
+                0 => vec![0u8; 16384],
+                1 => r.bytes(16384),
+                _ => Msg::Have(1).encode().repeat(1820),
+            });
+        }
+    }
+    let mut p = base_plan("riga-stream", seed, simple_geometry(64, 64));
+    let mut peer = base_peer(0, 1);
+    peer.net.short_read_pm = *rs.pick(&[0u32, 0, 200, 700]);
+    peer.net.yield_pm = *rs.pick(&[0u32, 0, 100]);
+    for (k, c) in chunks.into_iter().enumerate() {
+        peer.script.push(step(When::At(k as u64), Act::Raw(c)));
+    }
+    match ending {
+        0 => peer.script.push(step(When::At(1_000_000), Act::CloseFin)),
+        1 => peer.script.push(step(When::At(1_000_000), Act::CloseRst)),
+        _ => {}
+    }
+    p.peers.push(peer);
+    p
+}
+
+/// Rig D counterpart: a peer with a correct handshake sends such a stream to the real task.
+pub fn garbage_peer(seed: u64) -> Plan {
+    let mut r = Rng64::sub(seed, "garbage-peer");
+    let g = simple_geometry(64, 64 * r.range(2, 6));
+    let n = g.pieces();
+    let mut p = base_plan("garbage-peer", seed, g);
+    let mut seeder = base_peer(0, n);
+    seeder.unchoke = Unchoke::Never; // keeps the session busy without finishing
+    p.peers.push(seeder);
+    let k = r.range(1, 3) as usize;
+    for j in 1..=k {
+        let mut peer = base_peer(j, n);
+        peer.has = vec![false; n];
+        peer.unchoke = Unchoke::Never;
+        peer.keepalive = None;
+        if r.chance(1, 2) {
+            peer.listed = false;
+            peer.dial_in = vec![r.range(0, 2000)];
+        }
+        let (els, fatal) = gen_stream(&mut r, false);
+        let mut els = els;
+        let truncated = fatal.is_none() && r.chance(1, 2);
+        if truncated {
+            let total: Vec<u8> = els.concat();
+            if total.len() > 1 {
+                let cut = r.range(1, total.len() as u64 - 1) as usize;
+                els = vec![total[..cut].to_vec()];
+            }
+        }
+        let variant = r.below(4);
+        let chunks = cut_stream(&mut r, &els, variant);
+        let mut t = r.range(50, 3000);
+        for c in chunks {
+            peer.script.push(step(When::At(t), Act::Raw(c)));
+            t += *r.pick(&[1u64, 1, 5, 100, 2000]);
+        }
+        if fatal.is_some() {
+            for _ in 0..r.range(0, 3) {
+                peer.script.push(step(When::At(t), Act::Raw(r.bytes(2000))));
+                t += 10;
+            }
+        }
+        match r.below(4) {
+            0 => peer.script.push(step(When::At(t + r.range(1, 5000)), Act::CloseFin)),
+            1 => peer.script.push(step(When::At(t + r.range(1, 5000)), Act::CloseRst)),
+            _ => {}
+        }
+        p.peers.push(peer);
+    }
+    good_tracker(&mut p, 1);
+    p.deadline_ms = 100_000;
+    p.stop_on_done = false;
+    p
+}
+
+// ---------------------------------------------------------------------------------------------
+// wire-level profiles
+
+pub fn tiling(seed: u64) -> Plan {
+    let mut r = Rng64::sub(seed, "tiling");
+    let piece_len = match r.below(10) {
+        0..=6 => *r.pick(&[1u64, 16383, 16384, 16385, 32768, 32767, 40000, 49159, 49152, 65536, 20000, 100]),
+        _ => r.range(1, 70_000),
+    };
+    let n = r.range(1, 4);
+    let last = if r.chance(1, 3) { piece_len } else { r.range(1, piece_len) };
+    let g = simple_geometry(piece_len, (n - 1) * piece_len + last);
+    let n = g.pieces();
+    let mut p = base_plan("tiling", seed, g);
+    let k = r.range(1, 3) as usize;
+    for j in 0..k {
+        let mut peer = base_peer(j, n);
+        let calm_ = r.chance(1, 3);
+        peer.net = gen_net(&mut r, calm_);
+        peer.answer.delay_max = *r.pick(&[0u64, 0, 3, 40, 400]);
+        peer.answer.fifo = r.chance(1, 2);
+        peer.answer.dup_pm = *r.pick(&[0u32, 0, 200, 1000]);
+        if r.chance(1, 4) {
+            let blocks = ((piece_len + 16383) / 16384) as u32;
+            peer.answer.withhold.push((r.below(n as u64) as u32, r.below(blocks as u64) as u32));
+            // choke and unchoke later so that the piece is assigned afresh
+            peer.strict_choke = true;
+            let c = r.range(1, 4) as u32;
+            peer.script.push(step(When::AfterRx { kind: "Request".into(), count: c, plus: 300 }, Act::Choke));
+            peer.script.push(step(When::AfterRx { kind: "Request".into(), count: c, plus: 300 + r.range(1, 500) }, Act::Unchoke));
+        }
+        if r.chance(1, 4) {
+            honest_flaps(&mut r, &mut peer, true);
+        }
+        peer.max_accepts = 5;
+        p.peers.push(peer);
+    }
+    good_tracker(&mut p, 1);
+    p.deadline_ms = 120_000;
+    p.linger_ms = 300;
+    p
+}
+
+fn small_multi_geometry(r: &mut Rng64, min_p: u64, max_p: u64) -> Geometry {
+    let piece_len = match r.below(6) {
+        0 => *r.pick(&[16384u64, 20000, 32768, 40000]),
+        _ => r.range(16, 3000),
+    };
+    let mut n = r.range(min_p, max_p);
+    while n > min_p && n * piece_len > 260_000 {
+        n -= 1;
+    }
+    let last = r.range(1, piece_len);
+    simple_geometry(piece_len, (n - 1) * piece_len + last)
+}
+
+pub fn adversary_mix(seed: u64) -> Plan {
+    let mut r = Rng64::sub(seed, "adversary-mix");
+    let g = small_multi_geometry(&mut r, 2, 25);
+    let n = g.pieces();
+    let piece_len = g.piece_len;
+    let blocks = ((piece_len + 16383) / 16384) as u64;
+    let mut p = base_plan("adversary-mix", seed, g);
+    let honest = r.range(1, 3) as usize;
+    let mut k = 0;
+    for _ in 0..honest {
+        let mut peer = base_peer(k, n);
+        peer.max_accepts = 50;
+        peer.net = gen_net(&mut r, false);
+        peer.unchoke = Unchoke::OnInterested(r.range(1, 3000));
+        peer.answer.delay_max = *r.pick(&[0u64, 5, 50, 300]);
+        p.peers.push(peer);
+        k += 1;
+    }
+    for _ in 0..r.range(1, 5) {
+        let mut peer = base_peer(k, n);
+        peer.essential = false;
+        peer.max_accepts = r.range(1, 4) as u32;
+        peer.net = gen_net(&mut r, false);
+        peer.unchoke = Unchoke::OnInterested(r.range(0, 200));
+        peer.answer.delay_max = *r.pick(&[0u64, 0, 5, 50]);
+        peer.answer.fifo = r.chance(1, 2);
+        match r.below(7) {
+            0 | 1 => {
+                for _ in 0..r.range(1, 4) {
+                    peer.answer.corrupt.push((r.below(n as u64) as u32, r.below(blocks) as u32));
+                }
+                peer.answer.corrupt_once = r.chance(1, 2);
+            }
+            2 => peer.answer.dup_pm = *r.pick(&[300u32, 1000]),
+            3 => {
+                // unrequested / misplaced blocks at random times and right after requests
+                for _ in 0..r.range(1, 6) {
+                    let idx = r.below(n as u64 + 1) as u32;
+                    let begin = *r.pick(&[0u32, 1, 16384, 16383, 7]);
+                    let l = *r.pick(&[1usize, 16, 100, 16384]);
+                    let m = Msg::Piece { index: idx, begin, block: r.bytes(l) };
+                    let when = if r.chance(1, 2) { When::At(r.range(5, 5000)) } else { When::AfterRx { kind: "Request".into(), count: r.range(1, 6) as u32, plus: r.range(0, 3) } };
+                    peer.script.push(step(when, Act::Send(m)));
+                }
+            }
+            4 => {
+                // right index and offset, wrong length / right length, shifted offset
+                peer.answer.withhold.push((r.below(n as u64) as u32, 0));
+                let idx = peer.answer.withhold[0].0;
+                let l = (piece_len.min(16384)) as usize;
+                let data = r.bytes(l.saturating_sub(1).max(1));
+                peer.script.push(step(When::AfterRx { kind: "Request".into(), count: r.range(1, 4) as u32, plus: 1 }, Act::Send(Msg::Piece { index: idx, begin: 0, block: data })));
+            }
+            5 => {
+                let m = Msg::Piece { index: 0, begin: 0, block: vec![7u8; 200] }.encode();
+                let cut = r.range(1, 150) as usize;
+                let c = r.range(1, 5) as u32;
+                peer.script.push(step(When::AfterRx { kind: "Request".into(), count: c, plus: 2 }, Act::Raw(m[..cut].to_vec())));
+                peer.script.push(step(When::AfterRx { kind: "Request".into(), count: c, plus: 4 }, Act::CloseRst));
+            }
+            _ => peer.script.push(step(When::AfterTxBlocks { count: r.range(1, 6) as u32, plus: r.range(0, 20) }, if r.chance(1, 2) { Act::CloseFin } else { Act::CloseRst })),
+        }
+        p.peers.push(peer);
+        k += 1;
+    }
+    if r.chance(1, 5) {
+        for _ in 0..r.range(1, 3) {
+            p.disk_fail_writes.push(r.below(n as u64 + 2));
+        }
+    }
+    let mut names: Vec<String> = p.peers.iter().map(|x| x.name.clone()).collect();
+    r.shuffle(&mut names);
+    p.tracker.steps.push((r.range(1, 50), TrackerStep::Good { peers: names, malformed: 0, wrong_id_for: vec![] }));
+    p.fs_yield_pm = *r.pick(&[0u32, 100, 500]);
+    p.deadline_ms = 1_200_000;
+    p.linger_ms = 500;
+    p
+}
+
+fn boundary_requests(r: &mut Rng64, n: usize, piece_len: u64) -> Vec<(u32, u32, u32)> {
+    let mut v = Vec::new();
+    let pl = piece_len as u32;
+    for _ in 0..r.range(1, 8) {
+        let idx = match r.below(6) {
+            0 => n as u32,
+            1 => u32::MAX,
+            _ => r.below(n as u64) as u32,
+        };
+        let (b, l) = match r.below(12) {
+            0 => (0, 0),
+            1 => (0, 16385),
+            2 => (0xFFFF_C001, 16383),
+            3 => (0xFFFF_FFFF, 1),
+            4 => (0xFFFF_FFF0, 0x20),
+            5 => (pl, 1),
+            6 => (pl.saturating_sub(1), 2),
+            7 => (1, pl.min(16384)),
+            8 => (0, u32::MAX),
+            _ => {
+                let b = r.below(pl as u64) as u32;
+                (b, (pl - b).min(16384).max(1))
+            }
+        };
+        v.push((idx, b, l));
+    }
+    v
+}
+
+pub fn leechers(seed: u64) -> Plan {
+    let mut r = Rng64::sub(seed, "leechers");
+    let g = small_multi_geometry(&mut r, 2, 6);
+    let n = g.pieces();
+    let piece_len = g.piece_len;
+    let mut p = base_plan("leechers", seed, g);
+    let mut seeder = base_peer(0, n);
+    seeder.answer.delay_max = *r.pick(&[0u64, 0, 20]);
+    p.peers.push(seeder);
+    let many = r.chance(1, 4);
+    let k = if many { r.range(11, 14) } else { r.range(1, 4) } as usize;
+    for j in 1..=k {
+        let mut peer = base_peer(j, n);
+        peer.essential = false;
+        peer.has = vec![false; n];
+        peer.unchoke = Unchoke::Never;
+        let calm_ = r.chance(1, 2);
+        peer.net = gen_net(&mut r, calm_);
+        peer.keepalive = Some(50_000);
+        peer.accept_delay = r.range(20, 400);
+        if !many && r.chance(1, 2) {
+            peer.listed = false;
+            peer.dial_in = vec![r.range(100, 3000)];
+        }
+        if r.chance(1, 6) {
+            peer.bitfield = BitfieldMode::Omit;
+        }
+        let t_int = r.range(1, 300);
+        peer.script.push(step(When::At(t_int), Act::Send(Msg::Interested)));
+        // valid requests once unchoked
+        for u in 1..=3u32 {
+            peer.script.push(step(When::AfterRx { kind: "Unchoke".into(), count: u, plus: r.range(1, 100) }, Act::RequestOwned(r.range(1, 4) as u32)));
+        }
+        // boundary requests at three kinds of moment
+        for (i, b, l) in boundary_requests(&mut r, n, piece_len) {
+            let when = match r.below(4) {
+                0 => When::At(r.range(1, 40_000)),
+                1 => When::AfterRx { kind: "Choke".into(), count: r.range(1, 2) as u32, plus: r.range(0, 2) },
+                _ => When::AfterRx { kind: "Unchoke".into(), count: r.range(1, 2) as u32, plus: r.range(0, 300) },
+            };
+            peer.script.push(step(when, Act::Request(i, b, l)));
+        }
+        // keep asking so that upload rates differ and rotations have something to choke
+        for q in 0..r.range(0, 12) {
+            peer.script.push(step(When::At(5_000 + q * r.range(500, 4000)), Act::RequestOwned(1)));
+        }
+        // same piece again right after being choked (cached piece)
+        if r.chance(1, 2) {
+            peer.script.push(step(When::AfterRx { kind: "Choke".into(), count: 1, plus: r.range(0, 50) }, Act::RequestOwned(2)));
+            let idx = r.below(n as u64) as u32;
+            let l = (piece_len as u32).min(16384);
+            peer.script.push(step(When::AfterRx { kind: "Unchoke".into(), count: 1, plus: 400 }, Act::Request(idx, 0, l)));
+            peer.script.push(step(When::AfterRx { kind: "Choke".into(), count: 1, plus: 1 }, Act::Request(idx, 0, l)));
+            peer.script.push(step(When::AfterRx { kind: "Choke".into(), count: 1, plus: 500 }, Act::Request(idx, 0, l)));
+        }
+        if r.chance(1, 5) {
+            peer.script.push(step(When::At(r.range(10_000, 50_000)), Act::Send(Msg::NotInterested)));
+        }
+        p.peers.push(peer);
+    }
+    let names: Vec<String> = p.peers.iter().filter(|x| x.listed).map(|x| x.name.clone()).collect();
+    p.tracker.steps.push((1, TrackerStep::Good { peers: names, malformed: 0, wrong_id_for: vec![] }));
+    p.deadline_ms = r.range(35_000, 75_000);
+    p.stop_on_done = false;
+    p
+}
+
+pub fn handshakes(seed: u64) -> Plan {
+    let mut r = Rng64::sub(seed, "handshakes");
+    let g = small_multi_geometry(&mut r, 2, 5);
+    let n = g.pieces();
+    let piece_len = g.piece_len;
+    let mut p = base_plan("handshakes", seed, g);
+    let mut seeder = base_peer(0, n);
+    // stay interested so that the client keeps this connection after finishing
+    seeder.script.push(step(When::At(1), Act::Send(Msg::Interested)));
+    p.peers.push(seeder);
+    let ih_placeholder = [0u8; 20];
+    let _ = ih_placeholder;
+    let k = r.range(1, 5) as usize;
+    let mut wrong_id_for = Vec::new();
+    for j in 1..=k {
+        let mut peer = base_peer(j, n);
+        peer.essential = false;
+        peer.has = if r.chance(1, 2) { vec![false; n] } else { (0..n).map(|_| r.chance(1, 2)).collect() };
+        peer.unchoke = if r.chance(1, 2) { Unchoke::Never } else { Unchoke::OnInterested(5) };
+        let calm_ = r.chance(1, 2);
+        peer.net = gen_net(&mut r, calm_);
+        peer.keepalive = Some(50_000);
+        let incoming = r.chance(3, 5);
+        if incoming {
+            peer.listed = false;
+            peer.dial_in = vec![r.range(50, 4000)];
+        } else {
+            peer.accept_delay = r.range(1, 3000);
+        }
+        let kind = r.below(9);
+        peer.hs = match kind {
+            0 | 1 => Hs::Ok,
+            2 => Hs::WrongHash,
+            3 => {
+                if incoming {
+                    Hs::WrongHash
+                } else {
+                    Hs::WrongId
+                }
+            }
+            4 => Hs::WrongPstr,
+            5 | 6 => Hs::Absent,
+            7 => Hs::Eager,
+            _ => Hs::Ok,
+        };
+        if kind == 8 && !incoming {
+            // the tracker announces another id than the peer really has
+            wrong_id_for.push(peer.name.clone());
+        }
+        // an otherwise ordinary leecher conversation
+        let mut t = r.range(1, 200);
+        let l = (piece_len as u32).min(16384);
+        let pre: Vec<Act> = vec![
+            Act::Send(Msg::Bitfield(crate::codec::bitfield_bytes(&peer.has))),
+            Act::Send(Msg::Interested),
+            Act::Request(r.below(n as u64) as u32, 0, l),
+            Act::RequestOwned(2),
+            Act::Send(Msg::Have(r.below(n as u64) as u32)),
+            Act::Send(Msg::KeepAlive),
+        ];
+        if peer.hs == Hs::Absent {
+            // frames without (or before) a handshake
+            peer.bitfield = BitfieldMode::Omit;
+            for a in pre.iter().take(r.range(1, 6) as usize) {
+                peer.script.push(step(When::At(t), a.clone()));
+                t += r.range(0, 300);
+            }
+            for q in 0..r.range(0, 4) {
+                peer.script.push(step(When::At(t + 200 * q), Act::Request(r.below(n as u64) as u32, 0, l)));
+            }
+            if kind == 6 {
+                // late but correct handshake, then more requests
+                t += r.range(100, 3000);
+                peer.script.push(step(When::At(t), Act::Send(Msg::Handshake { pstr: crate::codec::PSTR.to_vec(), reserved: vec![0; 8], info_hash: vec![], peer_id: peer.id.clone() })));
+                peer.script.push(step(When::At(t + 50), Act::Send(Msg::Interested)));
+                peer.script.push(step(When::At(t + 500), Act::RequestOwned(2)));
+            }
+        } else {
+            peer.script.push(step(When::At(t), Act::Send(Msg::Interested)));
+            peer.script.push(step(When::AfterRx { kind: "Unchoke".into(), count: 1, plus: r.range(1, 100) }, Act::RequestOwned(2)));
+            for q in 0..r.range(0, 3) {
+                peer.script.push(step(When::At(t + 300 + 400 * q), Act::Request(r.below(n as u64) as u32, 0, l)));
+            }
+            if r.chance(1, 4) {
+                // a second handshake later: same, or for another torrent
+                let other = r.chance(1, 2);
+                let mut id = peer.id.clone();
+                if !other && r.chance(1, 2) {
+                    id[3] ^= 1;
+                }
+                peer.script.push(step(
+                    When::At(r.range(500, 6000)),
+                    Act::Send(Msg::Handshake { pstr: crate::codec::PSTR.to_vec(), reserved: vec![0; 8], info_hash: if other { vec![1] } else { vec![] }, peer_id: id }),
+                ));
+                peer.script.push(step(When::At(7000), Act::RequestOwned(2)));
+            }
+        }
+        p.peers.push(peer);
+    }
+    let names: Vec<String> = p.peers.iter().filter(|x| x.listed).map(|x| x.name.clone()).collect();
+    p.tracker.steps.push((1, TrackerStep::Good { peers: names, malformed: 0, wrong_id_for }));
+    p.deadline_ms = r.range(10_000, 80_000);
+    p.stop_on_done = false;
+    p
+}
+
+pub fn announce(seed: u64) -> Plan {
+    let mut r = Rng64::sub(seed, "announce");
+    let g = small_multi_geometry(&mut r, 3, 25);
+    let n = g.pieces();
+    let mut p = base_plan("announce", seed, g);
+    let ks = r.range(2, 6) as usize;
+    let hs = if r.chance(1, 2) { vec![vec![true; n]; ks] } else { split_has(&mut r, n, ks) };
+    let mut k = 0;
+    for h in hs {
+        let mut peer = base_peer(k, n);
+        peer.has = h;
+        peer.max_accepts = 20;
+        let calm_ = r.chance(1, 2);
+        peer.net = gen_net(&mut r, calm_);
+        peer.unchoke = Unchoke::OnInterested(r.range(1, 800));
+        peer.answer.delay_min = *r.pick(&[0u64, 2, 20]);
+        peer.answer.delay_max = peer.answer.delay_min + *r.pick(&[0u64, 10, 100, 400]);
+        // stay around after the download: interested in us
+        if r.chance(1, 2) {
+            peer.script.push(step(When::At(r.range(1, 2000)), Act::Send(Msg::Interested)));
+        }
+        p.peers.push(peer);
+        k += 1;
+    }
+    // observed peers
+    for _ in 0..r.range(1, 6) {
+        let mut peer = base_peer(k, n);
+        peer.essential = false;
+        peer.has = if r.chance(2, 3) { vec![false; n] } else { (0..n).map(|_| r.chance(1, 4)).collect() };
+        let calm_ = r.chance(1, 2);
+        peer.net = gen_net(&mut r, calm_);
+        peer.unchoke = Unchoke::Never;
+        peer.strict_choke = true;
+        peer.keepalive = Some(60_000);
+        if r.chance(2, 3) {
+            peer.listed = false;
+            peer.dial_in = vec![r.range(0, 4000)];
+        } else {
+            peer.accept_delay = r.range(1, 3000);
+        }
+        // choke / unchoke the client at random times
+        let mut t = r.range(0, 1500);
+        for _ in 0..r.range(0, 5) {
+            peer.script.push(step(When::At(t), Act::Unchoke));
+            t += r.range(1, 1500);
+            if r.chance(2, 3) {
+                peer.script.push(step(When::At(t), Act::Choke));
+                t += r.range(1, 1500);
+            }
+        }
+        if r.chance(1, 2) {
+            peer.script.push(step(When::At(r.range(1, 3000)), Act::Send(Msg::Interested)));
+        }
+        p.peers.push(peer);
+        k += 1;
+    }
+    let mut names: Vec<String> = p.peers.iter().filter(|x| x.listed).map(|x| x.name.clone()).collect();
+    r.shuffle(&mut names);
+    p.tracker.steps.push((1, TrackerStep::Good { peers: names, malformed: 0, wrong_id_for: vec![] }));
+    p.deadline_ms = 60_000;
+    p.linger_ms = 2_500;
+    p
+}
+
+// ---------------------------------------------------------------------------------------------
+// manager-level profiles
+
+pub fn bookkeeping(seed: u64) -> Plan {
+    let mut r = Rng64::sub(seed, "bookkeeping");
+    let (lo, hi) = if r.chance(1, 2) { (3, 8) } else { (11, 22) };
+    let g = small_multi_geometry(&mut r, lo, hi);
+    let n = g.pieces();
+    let mut p = base_plan("bookkeeping", seed, g);
+    let k = r.range(2, 8) as usize;
+    for j in 0..k {
+        let mut peer = base_peer(j, n);
+        peer.essential = false;
+        peer.max_accepts = r.range(1, 3) as u32;
+        peer.has = match r.below(3) {
+            0 => vec![true; n],
+            _ => (0..n).map(|_| r.chance(1, 2)).collect(),
+        };
+        if peer.has.iter().all(|h| !*h) {
+            peer.has[r.usize_below(n)] = true;
+        }
+        if r.chance(1, 4) {
+            peer.bitfield = BitfieldMode::AsHaves;
+        }
+        let calm_ = r.chance(1, 3);
+        peer.net = gen_net(&mut r, calm_);
+        peer.unchoke = match r.below(4) {
+            0 => Unchoke::At(r.range(1, 2000)),
+            1 => Unchoke::Never,
+            _ => Unchoke::OnInterested(r.range(1, 500)),
+        };
+        peer.answer.delay_min = *r.pick(&[0u64, 0, 10]);
+        peer.answer.delay_max = peer.answer.delay_min + *r.pick(&[0u64, 20, 300, 1500]);
+        peer.answer.fifo = r.chance(1, 2);
+        peer.answer.serve_after_choke = r.chance(1, 3);
+        peer.answer.dup_pm = *r.pick(&[0u32, 0, 200]);
+        if r.chance(1, 6) {
+            peer.listed = r.chance(1, 2);
+            peer.dial_in = vec![r.range(0, 5000)];
+        }
+        // random walk
+        let mut t = r.range(1, 800);
+        for _ in 0..r.range(2, 14) {
+            let act = match r.below(12) {
+                0..=2 => Act::Choke,
+                3..=5 => Act::Unchoke,
+                6 => Act::Send(Msg::Interested),
+                7 => Act::Send(Msg::NotInterested),
+                8 | 9 => Act::Gain(r.below(n as u64) as u32),
+                10 => Act::Send(Msg::Bitfield(crate::codec::bitfield_bytes(&peer.has))),
+                _ => Act::Send(Msg::KeepAlive),
+            };
+            let when = if r.chance(1, 3) {
+                When::AfterRx { kind: "Request".into(), count: r.range(1, 10) as u32, plus: r.range(0, 400) }
+            } else {
+                When::At(t)
+            };
+            peer.script.push(step(when, act));
+            t += *r.pick(&[0u64, 1, 5, 50, 300, 1500]);
+        }
+        if r.chance(1, 4) {
+            peer.script.push(step(When::At(t + r.range(0, 5000)), if r.chance(1, 2) { Act::CloseFin } else { Act::CloseRst }));
+        }
+        p.peers.push(peer);
+    }
+    let mut names: Vec<String> = p.peers.iter().filter(|x| x.listed).map(|x| x.name.clone()).collect();
+    r.shuffle(&mut names);
+    p.tracker.steps.push((1, TrackerStep::Good { peers: names, malformed: 0, wrong_id_for: vec![] }));
+    p.deadline_ms = 40_000;
+    p.linger_ms = 500;
+    p
+}
+
+pub fn choking(seed: u64) -> Plan {
+    let mut r = Rng64::sub(seed, "choking");
+    let piece_len = *r.pick(&[2000u64, 16384, 20000]);
+    let n_p = r.range(12, 30);
+    let g = simple_geometry(piece_len, n_p * piece_len - r.range(0, piece_len - 1));
+    let n = g.pieces();
+    let mut p = base_plan("choking", seed, g);
+    let listed = r.range(8, 16) as usize;
+    let dialin = r.range(0, 6) as usize;
+    let tied = r.chance(1, 3);
+    for j in 0..listed + dialin {
+        let mut peer = base_peer(j, n);
+        peer.essential = false;
+        let seeder = j < 2 || r.chance(1, 3);
+        peer.has = if seeder { vec![true; n] } else { (0..n).map(|_| r.chance(1, 5)).collect() };
+        peer.accept_delay = r.range(1, 60);
+        peer.net.lat_min = 1;
+        peer.net.lat_max = *r.pick(&[1u64, 1, 5]);
+        peer.unchoke = if seeder { Unchoke::OnInterested(r.range(1, 300)) } else { Unchoke::Never };
+        // different speeds (tied for some runs)
+        let d = if tied { 500 } else { *r.pick(&[100u64, 300, 700, 1500, 3000]) };
+        peer.answer.delay_min = d;
+        peer.answer.delay_max = d + if tied { 0 } else { r.range(0, 200) };
+        peer.keepalive = Some(60_000);
+        if j >= listed {
+            peer.listed = false;
+            peer.dial_in = vec![r.range(0, 20_000)];
+        }
+        // interest toggling and requests
+        let mut t = r.range(1, 3000);
+        if r.chance(4, 5) {
+            peer.script.push(step(When::At(t), Act::Send(Msg::Interested)));
+            for _ in 0..r.range(0, 3) {
+                t += r.range(2000, 25_000);
+                peer.script.push(step(When::At(t), Act::Send(Msg::NotInterested)));
+                t += r.range(100, 15_000);
+                peer.script.push(step(When::At(t), Act::Send(Msg::Interested)));
+            }
+        }
+        let period = if tied { 1000 } else { *r.pick(&[300u64, 700, 1500, 4000]) };
+        for q in 0..r.range(0, 40) {
+            peer.script.push(step(When::At(3000 + q * period), Act::RequestOwned(1)));
+        }
+        p.peers.push(peer);
+    }
+    let mut names: Vec<String> = p.peers.iter().filter(|x| x.listed).map(|x| x.name.clone()).collect();
+    r.shuffle(&mut names);
+    p.tracker.steps.push((1, TrackerStep::Good { peers: names, malformed: 0, wrong_id_for: vec![] }));
+    p.deadline_ms = r.range(31_000, 91_000);
+    p.stop_on_done = false;
+    p
+}
+
+// ---------------------------------------------------------------------------------------------
+// tracker and timer profiles
+
+pub fn tracker_faults(seed: u64) -> Plan {
+    let mut r = Rng64::sub(seed, "tracker-faults");
+    let g = simple_geometry(64, 64 * r.range(1, 4));
+    let n = g.pieces();
+    let mut p = base_plan("tracker-faults", seed, g);
+    let k = r.range(1, 6) as usize;
+    for j in 0..k {
+        let mut peer = base_peer(j, n);
+        peer.max_accepts = 10;
+        peer.unchoke = Unchoke::OnInterested(r.range(1, 500));
+        // keep the session from finishing at once: slow answers
+        peer.answer.delay_min = r.range(0, 3000);
+        peer.answer.delay_max = peer.answer.delay_min;
+        if r.chance(1, 6) {
+            peer.accept = Accept::Refuse;
+        }
+        p.peers.push(peer);
+    }
+    let failures = match r.below(8) {
+        0 => 0,
+        1 | 2 => 1,
+        3 | 4 => r.range(2, 10),
+        5 => r.range(10, 40),
+        _ => r.range(60, 80),
+    };
+    let mut total_ms = 0u64;
+    for _ in 0..failures {
+        let lat = *r.pick(&[0u64, 1, 50, 300, 300, 2000, 5000]);
+        let stepk = match r.below(8) {
+            0 | 1 => TrackerStep::Refused,
+            2 => TrackerStep::Http(*r.pick(&[400u16, 404, 500, 503])),
+            3 => {
+                let l = r.range(0, 60) as usize;
+                TrackerStep::Garbage(r.bytes(l))
+            }
+            4 => TrackerStep::Garbage(b"d8:intervali1800e5:peersld2:ip9:10.0.0.1".to_vec()),
+            5 => TrackerStep::Failure("torrent not registered".into()),
+            6 => TrackerStep::NoPeers,
+            _ => TrackerStep::Garbage(b"le".to_vec()),
+        };
+        total_ms += lat + 1000;
+        p.tracker.steps.push((lat, stepk));
+    }
+    let names: Vec<String> = p.peers.iter().map(|x| x.name.clone()).collect();
+    let lat = *r.pick(&[1u64, 100, 1000]);
+    total_ms += lat;
+    p.tracker.steps.push((lat, TrackerStep::Good { peers: names, malformed: r.range(0, 4) as u32, wrong_id_for: vec![] }));
+    // an honest peer dials in somewhere inside the failure run
+    let mut d = base_peer(k, n);
+    d.listed = false;
+    d.has = vec![false; n];
+    d.unchoke = Unchoke::Never;
+    d.dial_in = vec![r.range(0, total_ms.max(1))];
+    if r.chance(1, 2) {
+        d.dial_in.push(r.range(0, total_ms.max(1)));
+    }
+    d.script.push(step(When::At(5), Act::Send(Msg::Interested)));
+    p.peers.push(d);
+    // re-announce: every listed peer leaves, the client has to ask the tracker again
+    if r.chance(1, 4) {
+        for peer in p.peers.iter_mut().take(k) {
+            peer.unchoke = Unchoke::Never;
+            peer.script.push(step(When::At(r.range(100, 3000)), Act::CloseFin));
+        }
+    }
+    p.deadline_ms = total_ms + 14_000;
+    p.stop_on_done = false;
+    p
+}
+
+pub fn keepalive(seed: u64) -> Plan {
+    let mut r = Rng64::sub(seed, "keepalive");
+    let g = simple_geometry(64, 64 * r.range(3, 12));
+    let n = g.pieces();
+    let mut p = base_plan("keepalive", seed, g);
+    let k = r.range(1, 4) as usize;
+    for j in 0..k {
+        let mut peer = base_peer(j, n);
+        peer.essential = false;
+        peer.has = vec![false; n];
+        peer.unchoke = Unchoke::Never;
+        peer.keepalive = None;
+        if r.chance(1, 2) {
+            peer.listed = false;
+            peer.dial_in = vec![r.range(0, 100_000)];
+        } else {
+            peer.accept_delay = r.range(1, 5000);
+        }
+        let real = |r: &mut Rng64| -> Act {
+            match r.below(4) {
+                0 => Act::Send(Msg::Interested),
+                1 => Act::Gain(r.below(n as u64) as u32),
+                2 => Act::Send(Msg::Bitfield(vec![0u8; (n + 7) / 8])),
+                _ => Act::Send(Msg::Choke),
+            }
+        };
+        let gap = |r: &mut Rng64| -> u64 {
+            match r.below(8) {
+                0 => 119_000,
+                1 => 118_999,
+                2 => 119_000 - r.range(0, 50),
+                _ => r.range(0, 119_000),
+            }
+        };
+        match r.below(6) {
+            0 => {} // nothing at all
+            1 => peer.keepalive = Some(r.range(1000, 119_000)),
+            2 => {
+                // chatty for the whole run
+                let mut t = r.range(0, 100_000);
+                while t < 1_000_000 {
+                    peer.script.push(step(When::At(t), real(&mut r)));
+                    t += gap(&mut r);
+                }
+                if r.chance(1, 2) {
+                    peer.keepalive = Some(r.range(1000, 100_000));
+                }
+            }
+            3 => {
+                // busy, then silent for good (keep-alives may continue)
+                let mut t = r.range(0, 50_000);
+                let stop = r.range(0, 400_000);
+                while t < stop {
+                    peer.script.push(step(When::At(t), real(&mut r)));
+                    t += gap(&mut r);
+                }
+                if r.chance(1, 2) {
+                    peer.keepalive = Some(r.range(1000, 119_000));
+                }
+            }
+            4 => {
+                // silent stretch in the middle
+                let mut t = r.range(0, 50_000);
+                let stop = r.range(10_000, 200_000);
+                while t < stop {
+                    peer.script.push(step(When::At(t), real(&mut r)));
+                    t += gap(&mut r);
+                }
+                t += r.range(361_000, 500_000);
+                while t < 1_000_000 {
+                    peer.script.push(step(When::At(t), real(&mut r)));
+                    t += gap(&mut r);
+                }
+            }
+            _ => {
+                // holds a reservation, then goes silent
+                peer.has = vec![true; n];
+                peer.unchoke = Unchoke::OnInterested(r.range(1, 1000));
+                for i in 0..n as u32 {
+                    peer.answer.withhold.push((i, 0));
+                }
+                if r.chance(1, 2) {
+                    peer.keepalive = Some(r.range(1000, 119_000));
+                }
+            }
+        }
+        p.peers.push(peer);
+    }
+    let names: Vec<String> = p.peers.iter().filter(|x| x.listed).map(|x| x.name.clone()).collect();
+    p.tracker.steps.push((1, TrackerStep::Good { peers: names, malformed: 0, wrong_id_for: vec![] }));
+    p.deadline_ms = r.range(800_000, 1_000_000);
+    p.stop_on_done = false;
+    p
+}
+
 pub fn smoke(seed: u64) -> Plan {
     let g = simple_geometry(32768, 100_000);
     let n = g.pieces();
     let mut p = base_plan("smoke", seed, g);
-    let mut a = base_peer(0, n);
-    // the client extracts only when some connection ends: let the seeder leave late
-    a.script.push(Step { when: When::At(20_000), act: Act::CloseFin });
-    p.peers.push(a);
-    p.tracker.steps.push((5, TrackerStep::Good { peers: vec!["p0".into()], malformed: 0, wrong_id_for: vec![] }));
+    p.peers.push(base_peer(0, n));
+    good_tracker(&mut p, 5);
     p
 }
 
 pub fn generate(profile: &str, seed: u64) -> Option<Plan> {
-    match profile {
-        "smoke" => Some(smoke(seed)),
-        _ => None,
-    }
+    Some(match profile {
+        "smoke" => smoke(seed),
+        "geometry" => geometry(seed),
+        "hostile-names" => hostile_names(seed),
+        "announce-url" => announce_url(seed),
+        "honest-swarm" => honest_swarm(seed),
+        "riga-stream" => riga_stream(seed),
+        "garbage-peer" => garbage_peer(seed),
+        "tiling" => tiling(seed),
+        "adversary-mix" => adversary_mix(seed),
+        "leechers" => leechers(seed),
+        "handshakes" => handshakes(seed),
+        "announce" => announce(seed),
+        "bookkeeping" => bookkeeping(seed),
+        "choking" => choking(seed),
+        "tracker-faults" => tracker_faults(seed),
+        "keepalive" => keepalive(seed),
+        _ => return None,
+    })
 }
